@@ -401,14 +401,20 @@ def splice_fn(repo, file, item_path, sections, trait=None, nth=0, opts=(), canar
             if not code:
                 raise AnchorLost('for-loop header without an iterator expression')
             ed.blank(kw, in_idx)
+            # a loop label (`'outer: for ..`) moves with the loop: it is re-attached to the `while let`
+            label = ''
+            prev = [j for j in range(max(0, kw - 8), kw) if toks[j].kind not in ('ws', 'comment', 'doc')]
+            if len(prev) >= 2 and toks[prev[-1]].text == ':' and toks[prev[-2]].kind == 'lifetime':
+                label = toks[prev[-2]].text + ': '
+                ed.blank(prev[-2], prev[-1])
             ed.ins_before(code[0], '{ let mut cv_it%d = (' % n)
             m_ref = re.fullmatch(r'&\s*([A-Za-z_][A-Za-z0-9_]*)', pat)
             if m_ref:
                 # `for &x in ..`: the reference pattern (outside Verus) is written as a binding followed by `let x = *binding;`
-                ed.ins_after(code[-1], ').into_iter(); while let Some(cv_ref%d) = cv_it%d.next() ' % (n, n))
+                ed.ins_after(code[-1], ').into_iter(); %swhile let Some(cv_ref%d) = cv_it%d.next() ' % (label, n, n))
                 ed.ins_after(lopen, ' let %s = *cv_ref%d; ' % (m_ref.group(1), n))
             else:
-                ed.ins_after(code[-1], ').into_iter(); while let Some(%s) = cv_it%d.next() ' % (pat, n))
+                ed.ins_after(code[-1], ').into_iter(); %swhile let Some(%s) = cv_it%d.next() ' % (label, pat, n))
             ed.ins_after(lclose, ' }')
             rules['X2c-for'] = rules.get('X2c-for', 0) + 1
             dropped.append('%s:%d `for %s in ..` written as `while let Some(%s) = it.next()` over `.into_iter()` (X2c)' % (file, toks[kw].line, pat, pat))
